@@ -333,6 +333,32 @@ def check_regroup(case):
             except Exception as e:
                 out.viol('groupby-raised', '%s on a=%s raised %s: %s' % (variant, show(a), type(e).__name__, e), op='groupby', **sig)
 
+    # ---------------------------------------------------------------- a key column whose NAME contains the names of the other columns ('xbcf' next to b, c, f)
+    if n and case['t'] == 'two':
+        out.sub()
+        sig = dict(nkeys=1, spelling='key-name-contains-others')
+        try:
+            d = dictable(xbcf=list(a), b=list(cols['b']), c=list(cols['c']), f=list(cols['f']))
+            L = d.listby('xbcf')
+            U = L.unlist()
+            G = d.groupby('xbcf')
+            UG = G.ungroup()
+            out.call(4)
+            kl, rl = _rows(L)
+            ku, ru = _rows(U)
+            kg, rg = _rows(UG)
+            keys1 = [(x,) for x in a]
+            order1 = _stable_order(keys1)
+            want = [dict(xbcf=a[i], b=cols['b'][i], c=cols['c'][i], f=cols['f'][i]) for i in range(n)]
+            if set(kl) != {'xbcf', 'b', 'c', 'f'} or len(rl) != len(_groups(keys1)):
+                out.viol('listby-columns', "listby('xbcf') on a table with columns xbcf, b, c, f (xbcf=%s): result columns %s with %d rows" % (show(a), kl, len(rl)), op='listby', **sig)
+            elif set(ku) != {'xbcf', 'b', 'c', 'f'} or len(ru) != n or not all(_row_eq(g, want[i]) for g, i in zip(ru, order1)):
+                out.viol('unlist-not-sorted-original', "listby('xbcf').unlist() with xbcf=%s: columns %s rows %s" % (show(a), ku, show(ru, 300)), op='unlist', **sig)
+            elif set(kg) != {'xbcf', 'b', 'c', 'f'} or not _multiset_eq(rg, want):
+                out.viol('ungroup-not-original', "groupby('xbcf').ungroup() with xbcf=%s: columns %s rows %s" % (show(a), kg, show(rg, 300)), op='ungroup', **sig)
+        except Exception as e:
+            out.viol('listby-raised', "listby / groupby('xbcf') on xbcf=%s raised %s: %s" % (show(a), type(e).__name__, e), op='listby', **sig)
+
     # ---------------------------------------------------------------- the SAME table object regrouped again after a key cell was overwritten in place
     if n >= 2 and not _keyeq((a[0],), (a[n - 1],)):
         for key in (('a',), ('a', 'b')):
